@@ -172,3 +172,48 @@ def run(ctx: common.Ctx):
                                       {"dtype": d, "shape": shape, "observed": repr(got[1]), "numpy": repr(np_ans[1])})
     ctx.extra["rows"] = len(rows)
     ctx.extra["exhaustive"] = not quick
+    null_element_protocols(ctx)
+
+
+def null_element_protocols(ctx):
+    """A single *null* element of a nullable array: `bool/int/float/index` must do what NumPy does on the same masked value
+    (a value of the same type and — NaN aside — the same value, or an exception); the payload stored under the null must
+    never come out as a number."""
+    import warnings
+    ndx = impl.ndx
+    for d in ("nint32", "nfloat64", "nint64", "nfloat32", "nuint8", "nbool"):
+        base = d[1:]
+        payload = {"bool": True}.get(base, 20 if "int" in base else 2.5)
+        for shape in [(), (1,), (1, 1)]:
+            mv = np.ma.masked_array(np.full(shape, payload, dtype=base), mask=np.ones(shape, dtype=bool))
+            vec = np.ma.masked_array(np.array([payload, payload, payload], dtype=base), mask=[False, True, False])
+            arrays = {"asarray": lambda: ndx.asarray(mv)}
+            if shape == ():
+                arrays["element"] = lambda: ndx.asarray(vec)[1]
+                arrays["derived-element"] = (lambda: (ndx.asarray(vec) + ndx.asarray(vec))[1]) if base != "bool" else (lambda: ndx.logical_not(ndx.asarray(vec))[1])
+            for how, make in arrays.items():
+                try:
+                    a = make()
+                except Exception:
+                    ctx.count("null-element:construction-unsupported")
+                    continue
+                for pname, f in (("bool", bool), ("int", int), ("float", float), ("index", lambda v: [10, 11, 12][v])):
+                    ident = ("null-element", d, shape, how, pname)
+                    ctx.case(ident, True, {"dtype": d, "shape": shape, "array": how, "protocol": pname} if len(ctx.samples) < 10 else None)
+                    ctx.count("null-element")
+                    with warnings.catch_warnings():
+                        warnings.simplefilter("ignore")
+                        try:
+                            want = ("value", f(mv))
+                        except Exception as e:  # noqa: BLE001
+                            want = ("raises", type(e).__name__)
+                        try:
+                            got = ("value", f(a))
+                        except Exception as e:  # noqa: BLE001
+                            got = ("raises", type(e).__name__)
+                    same = (want[0] == got[0] == "raises") or (
+                        want[0] == got[0] == "value" and type(want[1]) is type(got[1]) and (want[1] == got[1] or (want[1] != want[1] and got[1] != got[1])))
+                    if not same:
+                        ctx.violation(f"{pname}/null-element/{base}/differs-from-numpy",
+                                      f"{pname}() of a null {d} element ({how}, shape {shape}, payload {payload!r}) -> {got}, NumPy on the masked value -> {want}",
+                                      {"dtype": d, "shape": list(shape), "array": how, "protocol": pname, "observed": str(got), "numpy": str(want)})
